@@ -143,6 +143,15 @@ pub struct Failure {
 // ---------------------------------------------------------------------------
 // Panic capture
 
+/// Property id of the running check (for the watchdog's INCONCLUSIVE line).
+pub static CURRENT_PROP: std::sync::OnceLock<String> = std::sync::OnceLock::new();
+
+/// Seconds a single generated case may run before the watchdog gives up (exit 2, never a
+/// violation: only C04 decides non-termination, and it does so with a step budget).
+fn hang_secs() -> u64 {
+    std::env::var("HV_HANG_SECS").ok().and_then(|v| v.parse().ok()).unwrap_or(300)
+}
+
 thread_local! {
     static LAST_PANIC: std::cell::RefCell<Option<String>> = const { std::cell::RefCell::new(None) };
     static QUIET: std::cell::Cell<bool> = const { std::cell::Cell::new(false) };
@@ -261,6 +270,7 @@ pub struct Ctx {
 
 impl Ctx {
     pub fn new(id: &str, tier: Tier, seed: u64) -> Ctx {
+        let _ = CURRENT_PROP.set(id.to_string());
         Ctx {
             id: id.to_string(),
             tier,
@@ -467,14 +477,56 @@ where
 
     let per = cases_total.div_ceil(THREADS as u64);
     let merged = Mutex::new((Stats::default(), Vec::<Failure>::new()));
+    // watchdog state: per worker, (start of the running case in ms since t_base, its bytes)
+    let t_base = Instant::now();
+    let running: Vec<Mutex<Option<(u64, Vec<u8>)>>> = (0..THREADS).map(|_| Mutex::new(None)).collect();
+    let live = std::sync::atomic::AtomicUsize::new(THREADS);
     std::thread::scope(|s| {
+        {
+            let running = &running;
+            let live = &live;
+            s.spawn(move || {
+                let limit = hang_secs() * 1000;
+                while live.load(std::sync::atomic::Ordering::SeqCst) > 0 {
+                    std::thread::sleep(std::time::Duration::from_millis(500));
+                    let now = t_base.elapsed().as_millis() as u64;
+                    for slot in running.iter() {
+                        let g = slot.lock().unwrap();
+                        if let Some((t0, bytes)) = g.as_ref() {
+                            if now.saturating_sub(*t0) > limit {
+                                let id = CURRENT_PROP.get().cloned().unwrap_or_else(|| "?".into());
+                                let dir = verif_root().join("replays");
+                                let _ = std::fs::create_dir_all(&dir);
+                                let path = dir.join(format!("hang-{id}-{:016x}.bytes", hash64(bytes)));
+                                let _ = std::fs::write(&path, bytes);
+                                println!(
+                                    "INCONCLUSIVE property={id} a generated case did not finish within {} s (possible non-termination in the code under test; not a verdict on this property); generator bytes saved to {}",
+                                    limit / 1000,
+                                    path.display()
+                                );
+                                std::process::exit(2);
+                            }
+                        }
+                    }
+                }
+            });
+        }
         for w in 0..THREADS {
             let merged = &merged;
+            let running = &running;
+            let live = &live;
             let decode = &decode;
             let oracle = &oracle;
             std::thread::Builder::new()
                 .stack_size(256 << 20)
                 .spawn_scoped(s, move || {
+                    struct Alive<'a>(&'a std::sync::atomic::AtomicUsize);
+                    impl Drop for Alive<'_> {
+                        fn drop(&mut self) {
+                            self.0.fetch_sub(1, std::sync::atomic::Ordering::SeqCst);
+                        }
+                    }
+                    let _alive = Alive(live);
                     let mut seed_bytes = [0u8; 32];
                     seed_bytes[..8].copy_from_slice(&seed.to_le_bytes());
                     seed_bytes[8..16].copy_from_slice(&(w as u64).to_le_bytes());
@@ -496,12 +548,14 @@ where
                             Err(_) => continue,
                         };
                         let run_one = |bytes: &Vec<u8>, stats: &mut Stats| -> (Value, Result<(), String>) {
+                            *running[w].lock().unwrap() = Some((t_base.elapsed().as_millis() as u64, bytes.clone()));
                             let mut src = Src::new(bytes);
                             let case = decode(&mut src);
                             let r = match guarded(|| oracle(&case, stats)) {
                                 Ok(r) => r,
                                 Err(p) => Err(p),
                             };
+                            *running[w].lock().unwrap() = None;
                             let v = if r.is_err() {
                                 serde_json::to_value(&case).unwrap_or(Value::Null)
                             } else {
@@ -547,6 +601,7 @@ where
                             break; // this worker stops at its first failure
                         }
                     }
+                    drop(_alive);
                     let mut m = merged.lock().unwrap();
                     m.0.merge(stats);
                     m.1.extend(fails);
